@@ -376,6 +376,8 @@ def oracle(line, out):
         return None if d.get("r") in ("ok", "panic-document") else "unexpected result %s" % d.get("r")
     if d.get("r") != "ok":
         return "serializer panicked on a well-formed tree: %s" % d.get("r")
+    if d.get("alt") == "bad-short-write":
+        return "the bytes written depend on how much the writer takes per write() call (a partial write loses data)"
     if d.get("alt") != "ok":
         return "SerializableHandle and a plain recursive traversal disagree"
     got = unbytes(d["out"])
